@@ -33,8 +33,8 @@ def exhaustive_core(run):
     import itertools
     tree = [['d', '/home/u', 0o755], ['d', '/home/u/d', 0o755], ['f', '/home/u/d/x', 'dx'], ['f', '/home/u/x', 'x'],
             ['d', '/home/u/d/d', 0o755], ['f', '/home/u/d/d/x', 'ddx'], ['l', '/home/u/link', 'd'], ['l', '/home/u/d/link', '/home/u/x'],
-            ['d', '/canary', 0o755], ['f', '/canary/file', 'c']]
-    comps = ['.', '..', 'd', 'x', 'link']
+            ['d', '/canary', 0o755], ['f', '/canary/file', 'c'], ['f', '/home/u/~', 'tilde'], ['d', '/home/u/d/~', 0o555], ['f', '/home/u/d/~/x', 'dtx']]
+    comps = ['.', '..', 'd', 'x', 'link', '~']             # '~' is a name like any other: the shell expands it, trash-put must not
     scns, metas = [], []
     for n in (1, 2, 3):
         for t in itertools.product(comps, repeat=n):
